@@ -344,13 +344,13 @@ Definition bind_pos (cl : cell) (args : list val) : option key :=
   then Some (args ++ skipn (n - (np - nd)) (cl_defaults cl))
   else None.
 
-(** line of statement [i] (the def line is 1) *)
+(** line of statement [i] (line 1 is the def line, line 2 the harness's execution-log call) *)
 Fixpoint stmt_line (body : list stmt) (i : nat) : nat :=
   match i, body with
-  | O, _ => 2
+  | O, _ => 3
   | S j, SAssign _ :: t => 1 + stmt_line t j
   | S j, STry _ _ :: t => 4 + stmt_line t j
-  | S j, [] => 2
+  | S j, [] => 3
   end.
 
 Definition store_value (st : state) (cl : cell) (i : item) (v : val) : res val * state :=
@@ -454,7 +454,7 @@ with eval_formula (fuel : nat) (st : state) (cl : cell) (i : item) {struct fuel}
   | S f =>
       if Nat.ltb (s_maxdepth st) (List.length (s_stack st)) then (Err KDeep, st)
       else
-        let st1 := upd_log (upd_rolled (upd_stack st (i :: s_stack st)) []) (i :: s_log st) in
+        let st1 := upd_log (upd_stack st (i :: s_stack st)) (i :: s_log st) in
         match exec_body f st1 (snd i) [] (cl_body cl) (cl_body cl) 0 with
         | (Val v, st2, _) =>
             if cl_cached cl then
@@ -489,7 +489,9 @@ with exec_body (fuel : nat) (st : state) (args : key) (locs : list val) (whole r
           | (Val v, st1) => exec_body f st1 args (locs ++ [v]) whole more (S idx)
           | (Err k, st1) =>
               if catchable k then
-                match eval_expr f st1 args locs (ln + 3) h with
+                (* the exception is handled: the nodes it rolled back are
+                   not part of any later traceback *)
+                match eval_expr f (upd_rolled st1 []) args locs (ln + 3) h with
                 | (Val v, st2) => exec_body f st2 args (locs ++ [v]) whole more (S idx)
                 | (Err k2, st2) => (Err k2, st2, ln + 3)
                 | (OutOfFuel, st2) => (OutOfFuel, st2, 0)
@@ -508,7 +510,7 @@ Definition eval_top (fuel : nat) (st : state) (i : item) : res val * state :=
       match (if cl_cached cl then lookup_data (s_data st) i else None) with
       | Some v => (Val v, st)
       | None =>
-          let st0 := upd_err st None in
+          let st0 := upd_rolled (upd_err st None) [] in
           match eval_formula fuel st0 cl i with
           | (Val v, st1) => (Val v, st1)
           | (Err k, st1) =>
